@@ -44,6 +44,12 @@ pub struct Step {
 #[derive(Clone, Debug, Serialize, Deserialize)]
 pub struct History {
     pub mem_limit: usize,
+    /// Some(L0): the host configures the limit the way an embedder does on a VM it already has:
+    /// the reused VM is created with limit L0 and switched to `mem_limit` with
+    /// `RuntimeData::set_memory_limit` before the first run and at every clear (the call clears
+    /// the VM). The fresh VMs it is compared with are created with `mem_limit` directly.
+    #[serde(default)]
+    pub limit_via_setter: Option<usize>,
     pub value_stack: usize,
     pub call_stack: usize,
     pub programs: Vec<Module>,
@@ -277,6 +283,7 @@ pub fn gen_persist_history(rng: &mut Rng) -> History {
     History {
         // from "the empty table barely fits" to "a few growths fit"
         mem_limit: 400 + rng.usize(4000),
+        limit_via_setter: None,
         value_stack: 256,
         call_stack: 256,
         programs,
@@ -334,8 +341,10 @@ fn gen_history(rng: &mut Rng, tier: Tier, endurance: bool) -> History {
             steps.push(Step { program: rng.usize(np), fault, clear_after: rng.chance(3, 4) });
         }
     }
+    let mem_limit = *rng.pick(&[400 * 1024usize, 64 * 1024, 16 * 1024, 6 * 1024]);
     History {
-        mem_limit: *rng.pick(&[400 * 1024usize, 64 * 1024, 16 * 1024, 6 * 1024]),
+        mem_limit,
+        limit_via_setter: if rng.chance(1, 4) { Some(*rng.pick(&[400 * 1024usize, 400 * 1024, 1024 * 1024, 16 * 1024, 2 * 1024])) } else { None },
         value_stack: *rng.pick(&[256usize, 256, 64, 24]),
         call_stack: *rng.pick(&[256usize, 256, 32, 8]),
         programs,
@@ -350,11 +359,33 @@ pub struct Machine {
 
 impl Machine {
     pub fn new(h: &History) -> Option<Machine> {
+        Self::with_limit(h, h.mem_limit)
+    }
+
+    fn with_limit(h: &History, mem_limit: usize) -> Option<Machine> {
         let ctl = VmCtl::new(CtlConfig { gc: GcPlan::Natural, ..Default::default() });
         ctl.install();
-        let knobs = Knobs { budget: BIG_BUDGET, mem_limit: h.mem_limit, value_stack: h.value_stack, call_stack: h.call_stack };
+        let knobs = Knobs { budget: BIG_BUDGET, mem_limit, value_stack: h.value_stack, call_stack: h.call_stack };
         let vm = new_vm(&ctl, &knobs, HostPlan::default())?;
         Some(Machine { ctl, vm: Some(vm) })
+    }
+
+    /// the VM whose history is under test: created as an embedder's long-lived VM is
+    pub fn reused(h: &History) -> Option<Machine> {
+        match h.limit_via_setter {
+            None => Self::new(h),
+            Some(l0) => {
+                let mut m = Self::with_limit(h, l0)?;
+                m.set_limit(h.mem_limit);
+                Some(m)
+            }
+        }
+    }
+
+    fn set_limit(&mut self, limit: usize) {
+        let vm = self.vm.as_mut().unwrap();
+        let _ = catch(|| vm.runtime_data.set_memory_limit(limit));
+        self.ctl.settle(&vm.runtime_data);
     }
 
     /// run one step; returns its observation and the raw RunOut (for findings)
@@ -511,7 +542,12 @@ fn run_history(h: &History, ctx: Option<&mut CaseCtx>) -> Vec<(Json, String, usi
         }
         return found;
     }
-    let Some(mut m) = Machine::new(h) else { return found };
+    let Some(mut m) = Machine::reused(h) else { return found };
+    if h.limit_via_setter.is_some() {
+        if let Some(ctx) = ctxo.as_deref_mut() {
+            ctx.count("probe:limit_configured_with_set_memory_limit", 1);
+        }
+    }
     let mut cleared = true;
     let mut prev_ending = "fresh".to_string();
     // first observation of each program from a cleared state, for repeat comparisons
@@ -569,6 +605,9 @@ fn run_history(h: &History, ctx: Option<&mut CaseCtx>) -> Vec<(Json, String, usi
         }
         prev_ending = ending_class(&obs.result);
         if st.clear_after {
+            if h.limit_via_setter.is_some() {
+                m.set_limit(h.mem_limit);
+            }
             for (sig, what) in m.clear() {
                 if !found.iter().any(|(s, _, _)| s == &sig) {
                     found.push((sig, format!("step {i}: {what}"), i));
@@ -751,7 +790,7 @@ impl Check for C17 {
         let hv = serde_json::to_value(&h).unwrap();
         let hh = crate::kernel::stable_hash_json(&hv);
         if ctx.case < 2 {
-            ctx.sample = Some(json!({"history": {"mem_limit": h.mem_limit, "value_stack": h.value_stack, "call_stack": h.call_stack,
+            ctx.sample = Some(json!({"history": {"mem_limit": h.mem_limit, "limit_via_setter": h.limit_via_setter, "value_stack": h.value_stack, "call_stack": h.call_stack,
                 "steps": h.steps, "programs": h.programs.len()}, "first_program": module_json(&h.programs[0])}));
         }
         if endurance {
